@@ -60,8 +60,9 @@ def modularise(text, rng, force_policy=None):
             src = n if rng.random() < 0.5 else 'src_' + n
             srcname[n] = src
             b = comps[n].replace('<component name="%s"' % n, '<component name="%s"' % src, 1)
-            if rng.random() < 0.4 and 'cellml:units="dimensionless"' in b:
-                b = b.replace('cellml:units="dimensionless"', 'cellml:units="cnu_%s"' % n, 1)
+            if rng.random() < 0.5 and 'cellml:units="dimensionless"' in b:
+                # units that only cn elements use (several of them, in different equations), defined in the library
+                b = b.replace('cellml:units="dimensionless"', 'cellml:units="cnu_%s"' % n, rng.choice([1, 2, 3, 5]))
             blocks.append(b)
         body = ''.join(blocks)
         need = used_units(body, units)
@@ -102,7 +103,12 @@ def modularise(text, rng, force_policy=None):
             text_units = ''.join('  %s\n' % rename_units(d, mapping) for d in defs)
             body = rename_units(body, mapping)
         for c in cn_only:
-            text_units += '  <units name="%s"><unit units="dimensionless"/></units>\n' % c
+            nm = c
+            if rng.random() < 0.5 and 'percent' in units and 'percent' not in need and '"percent"' not in body:
+                # ... under a name that the importing model uses for other units: they have to be renamed
+                nm = 'percent'
+                body = body.replace('cellml:units="%s"' % c, 'cellml:units="percent"')
+            text_units += '  <units name="%s"><unit units="dimensionless"/></units>\n' % nm
         files[lf] = HEAD % lf.replace('.', '_') + text_units + body + '</model>\n'
         policy[lf] = pol
     if need_ulib:
@@ -121,4 +127,4 @@ def modularise(text, rng, force_policy=None):
     first_units = o.index('  <units ') if '  <units ' in o else o.index('  <component ') if '  <component ' in o else o.index('  <connection ') if '  <connection ' in o else o.index('</model>')
     o = o[:first_units] + imports + o[first_units:]
     files['origin.cellml'] = o
-    return dict(files=files, origin='origin.cellml', moved=moved, policy=policy, srcname=srcname)
+    return dict(files=files, origin='origin.cellml', moved=moved, policy=policy, srcname=srcname, cn_only_moved=[n for n in moved])
